@@ -218,6 +218,13 @@ Example C19_histogram_nonvacuous :
              mkStat "client" "skew_max" "histogram" "ms" (-3) bt;
              mkStat "client" "skew_min" "histogram" "ms" (-4) bt ] ].
 Proof.
-  vm_compute. repeat split; try reflexivity.
-  intros s [<-|[<-|[]]]; vm_compute; split; discriminate.
+  cbv zeta.
+  replace (arun 60000000000 [] hist_evs) with
+    ([(1699999980000000000, [(akey (hist_s 0 0), mkAgg "client" "skew" "histogram" "ms" (-7) 2 (-4) (-3) 1699999980000000000)])],
+     [OPass; OInserted; OPass; OInserted; ODrop], false) by (vm_compute; reflexivity).
+  split; [vm_compute; reflexivity|]. split; [reflexivity|]. split; [reflexivity|]. split.
+  - replace (cov 60000000000 1699999980000000000 (akey (hist_s 0 0)) hist_evs)
+      with [hist_s (-4) 1699999980000000001; hist_s (-3) 1699999980000000002] by (vm_compute; reflexivity).
+    intros s [<-|[<-|[]]]; unfold int64, min_int64, max_int64; simpl; lia.
+  - vm_compute. reflexivity.
 Qed.
